@@ -111,7 +111,7 @@ def main():
     import argparse
     ap = argparse.ArgumentParser()
     ap.add_argument('--seed', type=int, default=1)
-    ap.add_argument('--versions', type=int, default=16)     # total over all families
+    ap.add_argument('--versions', type=int, default=18)     # total over all families
     ap.add_argument('--pool-size', type=int, default=7)
     ap.add_argument('--parts', type=int, default=4)
     ap.add_argument('--wrapped', type=int, default=4)       # versions per family that also get nested wrappers
@@ -121,8 +121,9 @@ def main():
     pool = Pool('tv')
     entry_groups_cache[0] = entry_groups(pool)
     fams = []
+    # always a named family (NOP_TABLE_NS), a literal-hash family and a zero-hash family (NOP_TABLE)
     modes = ['ns', 0x8877665544332211, 'zero', 200]
-    nfam = 2 if a.versions <= 24 else 3
+    nfam = 3 if a.versions <= 30 else 4
     for f in range(nfam):
         names, donors = gen_family(pool, rnd, f, a.versions // nfam, a.pool_size, modes[f % len(modes)])
         fams.append((names, donors))
